@@ -1,2 +1,5 @@
-// Package c10 holds the check for property C10.
+// Package c10 decides C10 (promise jobs run exactly once, in the specification's FIFO order, before control
+// returns to Go; rejection tracker; interrupt discards queued jobs) by bounded-exhaustive enumeration of
+// promise-operation programs (engine E1) executed in lock-step on goja and on the reference model
+// verif/ref/promisemodel.
 package c10
